@@ -47,6 +47,9 @@ STAGES = {
     "C04": [S("cuts", "^TestC04$", quick=40, thorough=60, shards=(6, 16), timeout=("15m", "120m"), shrinktime="60s")],
     "C06": [S("codes", "^TestC06$", shards=(8, 16)),
             S("mixed", "^TestC06Mixed$", quick=3000, thorough=20000, shards=(2, 16))],
+    "C19": [S("reads", "^TestC19$", quick=2500, thorough=15000, shards=(3, 16)),
+            S("writes", "^TestC19Write$", quick=800, thorough=5000, shards=(1, 8)),
+            S("concurrent-race", "^TestC19Concurrent$", quick=300, thorough=3000, shards=(2, 16), race=True)],
     "C20": [S("histories", "^TestC20$", quick=120, thorough=1500, shards=(6, 16))],
 }
 
